@@ -113,6 +113,10 @@ def gen_fn_scenario(rng: random.Random, static_only=True, simple_sigs=False, bod
             if i not in registered:
                 registered.append(i)
             continue
+        prev_calls = [o for o in ops if o[0] == "call"]
+        if prev_calls and r > 0.75:
+            ops.append(json.loads(json.dumps(rng.choice(prev_calls))))  # repeat an earlier call (C04, C20)
+            continue
         m = defs[rng.choice(registered)] if registered else rng.choice(defs)
         pp = [p for p in m["params"] if p["kind"] != "ko"]
         reqn = len([p for p in pp if p["req"]])
